@@ -181,6 +181,9 @@ class Interp(object):
         if isinstance(v, SSeq):
             return v.length > 0
         if isinstance(v, SMap):
+            if getattr(v, 'is_set', False):
+                k = z3.Const('k!nonempty', v.ksort)
+                return z3.Exists([k], z3.Select(v.dom, k))
             return v.size > 0
         if isinstance(v, SObj):
             c, m = v.cls.find_method('__bool__')
